@@ -1869,7 +1869,7 @@ class C02(PropBase):
     def gen_models(self, tier, seed):
         rng = Rng(seed)
         g = Gen(rng, tier)
-        n = 460 if tier == "quick" else 3000
+        n = 460 if tier == "quick" else 2000
         if os.environ.get("VERIF_REPO") and os.environ.get("VERIF_C02_MODELS"):      # developer runs (mutation experiments) only
             n = int(os.environ["VERIF_C02_MODELS"])
         models = []
